@@ -248,6 +248,14 @@ def d1_build(R: Rt, c: Dict[str, Any]):
         if isinstance(v, ct.MessageType):
             return f"{T[0]}.{x}", b, line("dotMessage", outcome(R, lambda: v.get(x)), f"dot {K[0]} {x}", br="msg")
         return f"{T[0]}.{x}", b, line("dotMap", outcome(R, lambda: v[x]), f"dot {K[0]} {x}", br="map")
+    if shape == "hasdot":
+        # has(e.f): the macro evaluates the member_dot node; an error VALUE means "absent", an exception still escapes
+        v = Vv[0]
+        if isinstance(v, ev.CELEvalError) or not isinstance(v, (ct.MessageType, ct.MapType)):
+            return f"has({T[0]}.{x})", b, line("dotMap", "ok", f"call has 1 dot {K[0]} {x}", br="other")
+        if isinstance(v, ct.MessageType):
+            return f"has({T[0]}.{x})", b, line("dotMessage", outcome(R, lambda: v.get(x)), f"call has 1 dot {K[0]} {x}", br="msg")
+        return f"has({T[0]}.{x})", b, line("dotMap", outcome(R, lambda: v[x]), f"call has 1 dot {K[0]} {x}", br="map")
     if shape == "call":
         src = f"{x}({', '.join(T)})"
         e = f"call {x} {len(K)} " + " ".join(K)
@@ -574,6 +582,9 @@ FUZZ_TOKENS = ['1', '2u', '1.5', '"s"', "'a'", 'x', 'y.z', '(', ')', '[', ']', '
 
 def fuzz_text(rng: random.Random) -> str:
     k = rng.random()
+    if k < 0.03:
+        # no token at all: blanks, line breaks, comments only (the parser's end-of-input path with no previous token)
+        return "".join(rng.choice([" ", "\t", "\n", "\r\n", "\f", "// c", "//", "\n// x\n", "\r"]) for _ in range(rng.randint(0, 5)))
     if k < 0.6:
         n = rng.randint(0, 12)
         return "".join(rng.choice(FUZZ_TOKENS) + rng.choice(["", " "]) for _ in range(n))
@@ -589,6 +600,117 @@ def fuzz_text(rng: random.Random) -> str:
                        "timestamp('2020-01-01T00:00:00Z') + duration('1s')"])
     i = rng.randrange(len(base) + 1)
     return base[:i] + rng.choice(FUZZ_TOKENS) + base[i + rng.choice([0, 1]):]
+
+
+# ------------------------------------------------------------------------------------------------------
+# sequences: several texts compiled / evaluated through the SAME Environment objects in one process
+# (state kept between calls: the parser's `text`, cached parsers, activations, programs built earlier)
+# ------------------------------------------------------------------------------------------------------
+
+SEQ_FIXED = ["", " ", "\n", " \t\r\n ", "// only a comment", "1 +", "foo(bar", "1", "true", "x_undefined", "1/0", "[1][5]",
+             "{'a': 1}.b", "\n\n1/0", "1\n+\n(1/0)", "true\n  && (1/0 > 0)\n  && false", "// c\n-v0", "1 // trailing\n/ 0\n",
+             "[1, 2]\n.map(x,\n 1/(x - 1))", "{'a': 1,\n 'b': [1][3]}", "\n\n\n'a' + 1", "v0\n.a\n.b", "size(\n1\n)",
+             "[1,\r\n2][\r\n7]", "1 +\n\n\n\n\n2 +\nnosuch", "has(\n{'a': 1}\n.b)", "1 true", "'abc"]
+
+
+def spread(src: str, rng: random.Random) -> str:
+    """the same expression over several lines: blanks outside string literals become line breaks"""
+    out, q = [], None
+    for ch in src:
+        if q:
+            if ch == q:
+                q = None
+        elif ch in "'\"":
+            q = ch
+        elif ch == " " and rng.random() < 0.35:
+            ch = rng.choice(["\n", "\n", "\n  ", "\r\n", "\n\n"])
+        out.append(ch)
+    return "".join(out)
+
+
+def seq_case(rng: random.Random, R: Rt, names: List[str]) -> Dict[str, Any]:
+    g = ExprGen(rng, R, names)
+    n = rng.randint(2, 4)
+    texts = []
+    for _ in range(n):
+        k = rng.random()
+        if k < 0.35:
+            t = rng.choice(SEQ_FIXED)
+        else:
+            t = g.expr(rng.randint(1, 3))
+            if k < 0.8:
+                t = spread(t, rng)
+            if rng.random() < 0.2:
+                t = "\n" * rng.randint(1, 3) + t
+            if rng.random() < 0.1:
+                t = t + "\n// end"
+        texts.append(t)
+    steps: List[List[int]] = []
+    if rng.random() < 0.7:
+        steps = [[0, i, 0] for i in range(n)]          # op 0 = compile + program, op 1 = evaluate
+    else:
+        for i in range(n):                             # the ordinary life cycle first, then out of order
+            steps += [[0, i, 0], [1, i, 0]]
+    for _ in range(2 * n):
+        steps.append([0, rng.randrange(n), 0] if rng.random() < 0.25 else [1, rng.randrange(n), rng.randrange(2)])
+    bind0 = dict(g.bind)
+    bind1 = {v: rng.choice(names) for v in bind0}
+    return dict(kind="seq", runner="I" if rng.random() < 0.7 else "C", n_env=1 if rng.random() < 0.75 else 2,
+                texts=texts, steps=steps, binds=[bind0, bind1])
+
+
+def run_seq(c: Dict[str, Any]) -> str:
+    """`seq <values> <eval errors> <parse errors>` | `EXC <Class> @step <k> <what>` | `… RENDER …` | `… BADPOS …`"""
+    R = rt()
+    celpy, ev = R.celpy, R.ev
+    Rn = {"I": celpy.InterpretedRunner, "C": celpy.CompiledRunner}[c["runner"]]
+    n_ok = n_err = n_parse = 0
+    k = -1
+    what = "environment"
+    try:
+        envs = [celpy.Environment(runner_class=Rn) for _ in range(c.get("n_env", 1))]
+        binds = [{v: R.pool[n].make() for v, n in b.items()} for b in c["binds"]]
+        progs: Dict[int, Any] = {}
+        fns = _host_functions()
+        for k, (op, i, w) in enumerate(c["steps"]):
+            text = c["texts"][i]
+            env = envs[i % len(envs)]
+            if op == 0:
+                what = f"compile({text!r})"
+                try:
+                    ast = env.compile(text)
+                except celpy.CELParseError as ex:
+                    n_parse += 1
+                    try:
+                        str(ex), repr(ex)
+                    except Exception as e2:
+                        return f"parse-error RENDER {type(e2).__name__} @step {k} {what}"
+                    if not inside(text, ex.line, ex.column):
+                        return f"parse-error BADPOS {ex.line}:{ex.column} @step {k} {what}"
+                    continue
+                what = f"program({text!r})"
+                progs[i] = env.program(ast, functions=fns)
+            else:
+                if i not in progs:
+                    continue
+                what = f"evaluate({text!r})"
+                try:
+                    with _deadline(EVAL_TIMEOUT_S):
+                        progs[i].evaluate(binds[w])
+                    n_ok += 1
+                except ev.CELEvalError as ex:
+                    n_err += 1
+                    try:
+                        str(ex), repr(ex)
+                    except Exception as e2:
+                        return f"err RENDER {type(e2).__name__} @step {k} {what}"
+        return f"seq {n_ok} {n_err} {n_parse}"
+    except EvaluationTimeout:
+        return f"EXC EvaluationTimeout(>{EVAL_TIMEOUT_S}s) @step {k} {what}"
+    except BaseException as ex:  # noqa
+        if isinstance(ex, (KeyboardInterrupt, SystemExit)):
+            raise
+        return f"EXC {type(ex).__name__} @step {k} {what}"
 
 
 # ------------------------------------------------------------------------------------------------------
@@ -655,6 +777,7 @@ class C04(Prop):
                 add(dict(shape="un", ops=[a], x=op))
             for f in ("a", "value"):
                 add(dict(shape="dot", ops=[a], x=f))
+                add(dict(shape="hasdot", ops=[a], x=f), 0.2)
             add(dict(shape="min", ops=[a]))
             for w in WRAPPERS:
                 add(dict(shape="objw", ops=[a], x=w), 0.3)
@@ -679,6 +802,17 @@ class C04(Prop):
             add(dict(shape="obj", ops=[a, b]), 0.3)
         for a, b in (rng.sample(pairs, min(len(pairs), 120)) if quick else pairs):
             add(dict(shape="map", ops=[a, R.pool["i1"].name, b, "i2"]), 0.3)
+        # primitives whose behaviour depends on the VALUE of an operand, not only on its kind: `str % x` / `bytes % x` are
+        # Python %-formatting (every format string x every value), sequence repetition (`*` with every integer)
+        fmts = [p.name for p in M.pool() if p.kind in ("strfmt", "bytesfmt")]
+        ints = [p.name for p in M.pool() if p.is_cel and p.kind.startswith(("int", "uint", "bool"))]
+        for a in fmts:
+            for b in cel_names:
+                add(dict(shape="bin", ops=[a, b], x="%"), 0.15)
+        for a in ("s_a", "b_a", "l_1", "s_fmts"):
+            for b in ints:
+                add(dict(shape="bin", ops=[a, b], x="*"), 0.15)
+                add(dict(shape="bin", ops=[b, a], x="*"), 0.15)
         few = [n for n in reps if R.pool[n].kind in ("int", "str", "err", "null", "list", "bool", "dbl")]
         for c0 in reps:
             for l in few:
@@ -722,6 +856,9 @@ class C04(Prop):
         for s in limit_exprs(rng):
             for r in ("I", "C"):
                 cases.append(dict(kind="expr", src=s, bind={}, xbind={}, package=None, runner=r))
+        # sequences through shared Environment objects ---------------------------------------------------------
+        for i in range(300 if quick else 6000):
+            cases.append(seq_case(rng, R, cel_names[:-1]))
         # random strings for compile -------------------------------------------------------------------------
         n_fuzz = 8000 if quick else 100000
         for i in range(n_fuzz):
@@ -736,6 +873,8 @@ class C04(Prop):
             src, b, line = d1_build(R, c)
             c["_line"] = line
             c["_src"] = src
+            if b:
+                c["_src"] = src + "  with " + ", ".join(f"{v} = {R.pool[n].cel or n}" for v, n in zip("abcd", c["ops"]) if v in b)
             out = run_impl(src, c["runner"], b)
             return out.split(" @")[0]
         if k == "expr":
@@ -768,6 +907,8 @@ class C04(Prop):
                 return "EXC RecursionError"
             except Exception as ex:  # noqa
                 return f"EXC {type(ex).__name__}"
+        if k == "seq":
+            return run_seq(c)
         if k == "site":
             # primitive-level replay: which classes does the site raise without arguments
             d = R.tab
@@ -805,6 +946,16 @@ class C04(Prop):
     def oracle(self, c, out):
         if c["kind"] == "site":
             return None
+        if c["kind"] == "seq":
+            if out.startswith("seq "):
+                return None
+            hist = "; ".join(("compile " if op == 0 else f"evaluate[binding set {w}] ") + repr(c["texts"][i]) for op, i, w in c["steps"])
+            if "BADPOS" in out:
+                return f"runner {c['runner']}, {c.get('n_env', 1)} Environment(s), steps: {hist}: CELParseError position outside the text ({out})"
+            if "RENDER" in out:
+                return f"runner {c['runner']}, {c.get('n_env', 1)} Environment(s), steps: {hist}: the raised error cannot be rendered ({out})"
+            return (f"runner {c['runner']}, {c.get('n_env', 1)} Environment(s) shared by the steps: {hist}: {out} escaped; only a value, "
+                    f"CELEvalError or CELParseError may leave compile/program/evaluate, whatever was compiled or evaluated before")
         what = c.get("_src") or c.get("src") or c.get("text")
         where = f"runner {c.get('runner')}: {what!r}"
         if c["kind"] == "compile":
@@ -824,6 +975,8 @@ class C04(Prop):
         return f"{where} let {out} escape; only a value, CELEvalError or CELParseError may leave compile/program/evaluate"
 
     def nontrivial(self, c, out):
+        if c.get("kind") == "seq" and out.startswith("seq "):
+            return out.split()[2:] != ["0", "0"]
         return out not in ("ok", "tree")
 
     def known_preds(self):
@@ -877,7 +1030,7 @@ class C04(Prop):
         sym = {v: k for tbl in (REL, ADD, MUL, {"||": "_||_", "&&": "_&&_"}) for k, v in tbl.items()}
 
         def names(k):
-            return by_kind.get(k, [])[:3]
+            return by_kind.get(k, [])[:8]
 
         for s in d["sites"]:
             hs = tuple(d["handlers"][s.name])
